@@ -62,6 +62,10 @@ type Knobs struct {
 	// goroutine that starts late, a slow step between two requests); see delaySites. The number is the sleep in ms
 	// where the site takes one.
 	Delays map[string]int `json:"delays,omitempty"`
+	// GoDelayPm (per mille): how often a background goroutine of a transaction (clean-up after a failed commit,
+	// commit of the secondaries, asynchronous pessimistic rollback, asynchronous lock resolution; yield points
+	// "go.*" of the verif hook) starts late, by 50 us .. 3 s of simulated time drawn from the run's seed
+	GoDelayPm int `json:"go_delay_pm,omitempty"`
 }
 
 // delaySites: failpoints of the library whose handler sleeps OUTSIDE the failpoint package (a `sleep(n)` term sleeps
@@ -71,6 +75,11 @@ type Knobs struct {
 // getTxnStatusDelay=return: the resolver sleeps 100 ms before it asks for a transaction's status;
 // prewriteSecondarySleep=return(n): every secondary prewrite batch sleeps n ms before it is sent.
 var delaySites = []string{"beforeAsyncPessimisticRollback", "getTxnStatusDelay", "prewriteSecondarySleep"}
+
+// genGoDelay draws how often background goroutines start late in a run (half of the runs: never).
+func genGoDelay(r *rand.Rand) int {
+	return []int{0, 0, 0, 100, 300, 700}[r.Intn(6)]
+}
 
 // genDelays draws the delay sites of a run (most runs have none).
 func genDelays(r *rand.Rand) map[string]int {
@@ -437,5 +446,6 @@ func genWorkload(cfg simkit.RunConfig, o genOpts) *Scenario {
 		sc.Knobs.ScanBatch = 2 + r.Intn(4)
 	}
 	sc.Knobs.Delays = genDelays(r)
+	sc.Knobs.GoDelayPm = genGoDelay(r)
 	return sc
 }
